@@ -1,8 +1,20 @@
-(** SFCodec.v — one regenerated-source fact (see SourceFacts.v); a closed computation on Extracted.v. *)
+(** SFCodec.v — one regenerated-source fact (see SourceFacts.v); a closed computation on Extracted.v.
+    The regular expressions used anywhere in utils.py and the values returned by get_name_with_lag are exactly the ones
+    Names.v was written from (Appendix B of DESIGN.md describes how Names.parse follows these three patterns and Names.fmt
+    these three templates).  Control flow, local names and messages are not pinned. *)
 From Coq Require Import String List Bool.
 From CG Require Import Extracted SourceFacts.
 Import ListNotations.
 Local Open Scope string_scope.
 
-Lemma name_codec_source_is_the_modelled_one : name_codec_source = modelled_name_codec_source.
+Definition modelled_name_codec_constants : list (string * string) :=
+[
+  ("regex", "^(?s:(.+?\n*))(?: lag\(n=(\d+)\))?(?: future\(n=(\d+)\))?$");
+  ("regex", "lag\(n=(\d+)\)");
+  ("regex", "future\(n=(\d+)\)");
+  ("return", "v0");
+  ("return", "f'{v0} future(n={lag})'");
+  ("return", "f'{v0} lag(n={-lag})'")
+].
+Lemma name_codec_source_is_the_modelled_one : name_codec_constants = modelled_name_codec_constants.
 Proof. reflexivity. Qed.
